@@ -1,14 +1,39 @@
 (* The combined algorithms of Model/TaffyEngine.v satisfy the premises of the engine-level theorems of C05 / C06:
      grid_leaf_algo_hidden_blind / _abs_blind_lines   engines of grid containers and leaves
-     taffy_algo_hidden_blind                          engines of block, flex, grid containers and leaves: HiddenBlind with no premise left *)
+     taffy_algo_hidden_blind                          engines of block, flex, grid containers and leaves: HiddenBlind with no premise left,
+                                                      for every dispatch on (own style, number of children) *)
 From Coq Require Import ZArith Bool List.
 From TV Require Import Model.Common Model.Leaf Model.FlexAlgBase Model.FlexAlg Model.EngineLift Model.BlockFlexEngine.
 From TV Require Import Model.FiltersBase Gen.FiltersGen Model.ItemFilters.
-From TV Require Import Model.GridAlgBase Model.GridAlg Model.TaffyEngine.
+From TV Require Import Model.GridAlgBase Model.GridAlg Model.GridAlgTotal Model.TaffyEngine.
 From TV Require Import Model.Engine Proofs.EngineMemo Proofs.EngineBlind Proofs.EngineAbs Proofs.EngineAbsKey Proofs.EngineLift.
-From TV Require Import Proofs.BlockAlgBlind Proofs.BlockFlexEngine Proofs.GridAlgIface Proofs.GridAlgBlind.
+From TV Require Import Proofs.BlockAlgBlind Proofs.FlexAlgBlind Proofs.BlockFlexEngine Proofs.GridAlgIface Proofs.GridAlgBlind Proofs.GridAlgTotal.
 Import ListNotations.
 Close Scope Z_scope.
+
+(* dispatch on the node's own style and ITS NUMBER OF CHILDREN (the views of a child list have its length) *)
+Definition tk_is (a b : TKind) : bool :=
+  match a, b with TKBlock, TKBlock | TKFlex, TKFlex | TKGrid, TKGrid | TKLeaf, TKLeaf => true | _, _ => false end.
+
+Lemma HiddenBlind_ext (S In Out Lay : Type) (is_none : S -> bool) (a b : S -> list S -> In -> Alg In Out Lay) :
+  (forall s st i, b s st i = a s st i) -> HiddenBlind S In Out Lay is_none a -> HiddenBlind S In Out Lay is_none b.
+Proof.
+  intros E (V & v & a' & Hv & Ha). exists V, v, a'. split; [exact Hv|]. intros s st i. rewrite E. apply Ha.
+Qed.
+
+Lemma HiddenBlind_dispatch_n (S In Out Lay : Type) (is_none : S -> bool) (sel : S -> nat -> bool)
+      (a1 a2 : S -> list S -> In -> Alg In Out Lay) :
+  HiddenBlind S In Out Lay is_none a1 -> HiddenBlind S In Out Lay is_none a2 ->
+  HiddenBlind S In Out Lay is_none (fun s st i => if sel s (length st) then a1 s st i else a2 s st i).
+Proof.
+  intros (V1 & v1 & b1 & Hv1 & Hb1) (V2 & v2 & b2 & Hv2 & Hb2).
+  exists (V1 * V2)%type, (fun s => (v1 s, v2 s)), (fun s vs i => if sel s (length vs) then b1 s (map fst vs) i else b2 s (map snd vs) i).
+  split.
+  - intros a b Ha Hb. rewrite (Hv1 a b Ha Hb), (Hv2 a b Ha Hb). reflexivity.
+  - intros s st i. rewrite map_length, !map_map. cbn [fst snd]. rewrite Hb1, Hb2.
+    replace (map (fun x => v1 x) st) with (map v1 st) by reflexivity.
+    replace (map (fun x => v2 x) st) with (map v2 st) by reflexivity. reflexivity.
+Qed.
 
 Section Taffy.
   Context {T : Type} `{Num T}.
@@ -18,17 +43,31 @@ Section Taffy.
   Proof. reflexivity. Qed.
 
   Theorem grid_alg_t_hidden_blind : HiddenBlind (TStyle T) (FIn T) Out (FLay T) t_is_none grid_alg_t.
-  Proof. unfold grid_alg_t. eapply HiddenBlind_comap; [apply to_gstyle_is_none|apply grid_alg_hidden_blind]. Qed.
+  Proof. unfold grid_alg_t. eapply HiddenBlind_comap; [apply to_gstyle_is_none|apply grid_alg_total_hidden_blind]. Qed.
 
-  Theorem blockflex_alg_t_hidden_blind kind pre abs_child leaf :
-    HiddenBlind (TStyle T) (FIn T) Out (FLay T) t_is_none (blockflex_alg_t kind pre abs_child leaf).
-  Proof. unfold blockflex_alg_t. eapply HiddenBlind_comap; [intros s; reflexivity|apply blockflex_algo_hidden_blind]. Qed.
+  Theorem block_alg_t_hidden_blind pre abs_child :
+    HiddenBlind (TStyle T) (FIn T) Out (FLay T) t_is_none (block_alg_t pre abs_child).
+  Proof. unfold block_alg_t. eapply HiddenBlind_comap; [intros s; reflexivity|apply block_alg_bf_hidden_blind]. Qed.
 
-  Theorem taffy_algo_hidden_blind is_grid kind pre abs_child leaf :
-    HiddenBlind (TStyle T) (FIn T) Out (FLay T) t_is_none (taffy_algo is_grid kind pre abs_child leaf).
+  Theorem flex_alg_t_hidden_blind : HiddenBlind (TStyle T) (FIn T) Out (FLay T) t_is_none flex_alg_t.
+  Proof. unfold flex_alg_t. eapply HiddenBlind_comap; [intros s; reflexivity|apply flex_alg_bf_hidden_blind]. Qed.
+
+  Theorem taffy_algo_hidden_blind disp pre abs_child leaf :
+    HiddenBlind (TStyle T) (FIn T) Out (FLay T) t_is_none (taffy_algo disp pre abs_child leaf).
   Proof.
-    unfold taffy_algo. apply (HiddenBlind_dispatch2 (TStyle T) (FIn T) Out (FLay T) t_is_none is_grid);
-      [apply grid_alg_t_hidden_blind|apply blockflex_alg_t_hidden_blind].
+    apply (HiddenBlind_ext (TStyle T) (FIn T) Out (FLay T) t_is_none
+             (fun s st i => if tk_is TKGrid (disp s (length st)) then grid_alg_t s st i
+                            else if tk_is TKBlock (disp s (length st)) then block_alg_t pre abs_child s st i
+                            else if tk_is TKFlex (disp s (length st)) then flex_alg_t s st i
+                            else Engine.Ret (FIn T) Out (FLay T) (leaf s i))).
+    - intros s st i. unfold taffy_algo. destruct (disp s (length st)); reflexivity.
+    - apply (HiddenBlind_dispatch_n (TStyle T) (FIn T) Out (FLay T) t_is_none (fun s n => tk_is TKGrid (disp s n)));
+        [apply grid_alg_t_hidden_blind|].
+      apply (HiddenBlind_dispatch_n (TStyle T) (FIn T) Out (FLay T) t_is_none (fun s n => tk_is TKBlock (disp s n)));
+        [apply block_alg_t_hidden_blind|].
+      apply (HiddenBlind_dispatch_n (TStyle T) (FIn T) Out (FLay T) t_is_none (fun s n => tk_is TKFlex (disp s n)));
+        [apply flex_alg_t_hidden_blind|].
+      apply (HiddenBlind_leaf (TStyle T) (FIn T) Out (FLay T) t_is_none leaf).
   Qed.
 
   Theorem grid_leaf_algo_hidden_blind sel leaf :
@@ -63,20 +102,31 @@ Section Taffy.
   Proof.
     unfold grid_alg_t, style_comap.
     apply (AbsBlindK_comap (GStyle T) (TStyle T) (FIn T) Out (FLay T) LK to_gstyle g_visible_absolute t_visible_absolute g_lines t_lines);
-      [intros s; reflexivity|intros s; reflexivity|apply grid_alg_abs_blind_keyed].
+      [intros s; reflexivity|intros s; reflexivity|apply grid_alg_total_abs_blind_keyed].
   Qed.
 
-  Theorem blockflex_alg_t_abs_blind_keyed kind pre abs_child leaf : BlockAlg.AbsChildLocal abs_child ->
-    AbsBlindK (TStyle T) (FIn T) Out (FLay T) (blockflex_alg_t kind pre abs_child leaf) t_visible_absolute LK t_lines fout_eq flay_eq.
+  Theorem block_alg_t_abs_blind_keyed pre abs_child : BlockAlg.AbsChildLocal abs_child ->
+    AbsBlindK (TStyle T) (FIn T) Out (FLay T) (block_alg_t pre abs_child) t_visible_absolute LK t_lines fout_eq flay_eq.
   Proof.
-    intros Hloc. apply AbsBlind_K. unfold blockflex_alg_t.
-    eapply AbsBlind_comap; [intros s; reflexivity|apply blockflex_algo_abs_blind; exact Hloc].
+    intros Hloc. apply AbsBlind_K. unfold block_alg_t.
+    eapply AbsBlind_comap; [intros s; reflexivity|apply block_alg_bf_abs_blind; exact Hloc].
   Qed.
 
-  Theorem taffy_algo_abs_blind_keyed is_grid kind pre abs_child leaf : BlockAlg.AbsChildLocal abs_child ->
-    AbsBlindK (TStyle T) (FIn T) Out (FLay T) (taffy_algo is_grid kind pre abs_child leaf) t_visible_absolute LK t_lines fout_eq flay_eq.
+  Theorem flex_alg_t_abs_blind_keyed :
+    AbsBlindK (TStyle T) (FIn T) Out (FLay T) flex_alg_t t_visible_absolute LK t_lines fout_eq flay_eq.
   Proof.
-    intros Hloc. unfold taffy_algo. apply (AbsBlindK_dispatch2 (TStyle T) (FIn T) Out (FLay T) LK is_grid);
-      [apply grid_alg_t_abs_blind_keyed|apply blockflex_alg_t_abs_blind_keyed; exact Hloc].
+    apply AbsBlind_K. unfold flex_alg_t. eapply AbsBlind_comap; [intros s; reflexivity|apply flex_alg_bf_abs_blind].
+  Qed.
+
+  Theorem taffy_algo_abs_blind_keyed disp pre abs_child leaf : BlockAlg.AbsChildLocal abs_child ->
+    AbsBlindK (TStyle T) (FIn T) Out (FLay T) (taffy_algo disp pre abs_child leaf) t_visible_absolute LK t_lines fout_eq flay_eq.
+  Proof.
+    intros Hloc s st st' i Hr. unfold taffy_algo.
+    assert (EL : length st' = length st) by (clear -Hr; induction Hr; cbn; congruence).
+    rewrite EL. destruct (disp s (length st)).
+    - apply block_alg_t_abs_blind_keyed; assumption.
+    - apply flex_alg_t_abs_blind_keyed; assumption.
+    - apply grid_alg_t_abs_blind_keyed; assumption.
+    - apply AB_ret. apply fout_eq_refl.
   Qed.
 End Taffy.
